@@ -1,8 +1,10 @@
 package rules
 
 import (
+	"fmt"
 	"go/token"
 	"regexp"
+	"strings"
 
 	"golang.org/x/tools/go/ssa"
 
@@ -153,4 +155,66 @@ func dominatedBlocks(b *ssa.BasicBlock) []*ssa.BasicBlock {
 		}
 	}
 	return out
+}
+
+// isDiagnosticCall reports whether a call only produces diagnostics — a log
+// line through the project's logger, or the formatting of a message/error
+// value. Such calls are not operations of the component under analysis: rules
+// of the form «nothing happens here except …» or «every operation is guarded
+// by …» do not count them.
+func isDiagnosticCall(name string) bool {
+	if strings.HasPrefix(name, "(*logging.Logger).") {
+		switch strings.TrimPrefix(name, "(*logging.Logger).") {
+		case "Error", "Errorf", "Warn", "Warnf", "Info", "Infof", "Debug", "Debugf", "Trace", "Tracef", "Level":
+			return true
+		}
+		return false
+	}
+	switch name {
+	case "errors.New", "fmt.Errorf", "fmt.Sprintf", "fmt.Sprint", "errors.Is", "errors.As":
+		return true
+	}
+	return false
+}
+
+// everyPathTo enumerates the ways from fn's entry to block b and reports
+// whether ok holds on each of them (and how many there are). It is the
+// disjunction-friendly form of a must-guard: after `if a || b { return x }` the
+// return block has two predecessors and no single atom holds on entry to it,
+// but on every way into it one of the two does.
+func everyPathTo(b *ssa.BasicBlock, limit int, ok func(eng.Path) bool) (bool, int) {
+	fn := b.Parent()
+	paths, complete := eng.EnumPaths(fn.Blocks[0], func(x *ssa.BasicBlock) bool { return x == b }, limit)
+	n, all := 0, complete
+	for _, p := range paths {
+		if p.Last() != b {
+			continue
+		}
+		n++
+		if !ok(p) {
+			all = false
+		}
+	}
+	return all && n > 0, n
+}
+
+// Spellings of three string tests that rules meet as boolean atoms. Each pair is
+// equivalent for a non-empty string (the callers establish non-emptiness
+// separately): s[0]==c / strings.HasPrefix(s, "c"); s[len(s)-1]==c /
+// strings.HasSuffix(s, "c"); strings.IndexByte(s, c)>=0 / strings.Contains(s,
+// "c") / strings.ContainsRune(s, c).
+func atomFirstByteIs(atom string, ch byte) bool {
+	return strings.HasSuffix(atom, fmt.Sprintf("[0] == %d)", ch)) && strings.HasPrefix(atom, "(") ||
+		strings.HasPrefix(atom, "strings.HasPrefix(") && strings.HasSuffix(atom, fmt.Sprintf(", %q)", string(ch)))
+}
+
+func atomLastByteIs(atom string, ch byte) bool {
+	return strings.HasSuffix(atom, fmt.Sprintf(" == %d)", ch)) && strings.Contains(atom, "[(len(") && strings.Contains(atom, " - 1)]") ||
+		strings.HasPrefix(atom, "strings.HasSuffix(") && strings.HasSuffix(atom, fmt.Sprintf(", %q)", string(ch)))
+}
+
+func atomContainsByte(atom string, ch byte) bool {
+	return strings.HasPrefix(atom, "(strings.IndexByte(") && strings.HasSuffix(atom, fmt.Sprintf(", %d) >= 0)", ch)) ||
+		strings.HasPrefix(atom, "strings.Contains(") && strings.HasSuffix(atom, fmt.Sprintf(", %q)", string(ch))) ||
+		strings.HasPrefix(atom, "strings.ContainsRune(") && strings.HasSuffix(atom, fmt.Sprintf(", %d)", ch))
 }
